@@ -95,14 +95,14 @@ theorem ticketAuth_ok {ks : KeyStore} {t : Nat} {env : Env} {details : Dict} {sc
 
 /-- wampcra (challenge path): the decoded response is the HMAC, under the key the router holds for
     this authid, of the challenge string issued in THIS handshake. -/
-def CraAccepts (ks : KeyStore) (t : Nat) (env : Env) (details : Dict) (script rest : List Arrival)
+def CraAccepts (rk : Bool) (ks : KeyStore) (t : Nat) (env : Env) (details : Dict) (script rest : List Arrival)
     (chStr : String) : Prop :=
   env.challengeBlocked = false ∧
   ∃ nonce sig sb, env.o.chalNonce = some nonce ∧
     chStr = craChallengeOf ks env (details.optString "authid") nonce ∧
     AnswersInTime (crTimeout t) script sig rest ∧
     env.o.b64decode sig = some sb ∧
-    sb = env.o.hmac (craKey ks env.o (details.optString "authid")) chStr
+    sb = env.o.hmac (craKey rk ks env.o (details.optString "authid")) chStr
 
 theorem craVerify_iff {o : Oracle} {sig chal : String} {key : Bytes} :
     craVerify o sig chal key = true ↔ ∃ sb, o.b64decode sig = some sb ∧ sb = o.hmac key chal := by
@@ -111,18 +111,18 @@ theorem craVerify_iff {o : Oracle} {sig chal : String} {key : Bytes} :
   | none => simp
   | some sb => simp
 
-theorem craAuth_ok {ks : KeyStore} {t : Nat} {env : Env} {details : Dict} {script : List Arrival} {w : Dict}
-    (h : (craAuth ks t env details script).res = .ok w) :
+theorem craAuth_ok {rk : Bool} {ks : KeyStore} {t : Nat} {env : Env} {details : Dict} {script : List Arrival} {w : Dict}
+    (h : (craAuth rk ks t env details script).res = .ok w) :
     details.optString "authid" ≠ "" ∧
     finishWelcome ks.bypass (details.optString "authid")
       (stdWelcome (details.optString "authid") (roleOr ks (details.optString "authid") "user") "wampcra" ks.provider)
       details = .ok w ∧
     ((alreadyAuth ks.bypass (details.optString "authid") details = true ∧
-        (craAuth ks t env details script).sent = []) ∨
+        (craAuth rk ks t env details script).sent = []) ∨
      (alreadyAuth ks.bypass (details.optString "authid") details = false ∧
-        ∃ chStr, (craAuth ks t env details script).sent =
+        ∃ chStr, (craAuth rk ks t env details script).sent =
             [.challenge "wampcra" (craExtra ks (details.optString "authid") chStr)] ∧
-          CraAccepts ks t env details script (craAuth ks t env details script).rest chStr)) := by
+          CraAccepts rk ks t env details script (craAuth rk ks t env details script).rest chStr)) := by
   by_cases ha : details.optString "authid" = ""
   · simp [craAuth, ha] at h
   · refine ⟨ha, ?_⟩
@@ -137,7 +137,7 @@ theorem craAuth_ok {ks : KeyStore} {t : Nat} {env : Env} {details : Dict} {scrip
         obtain ⟨sig, hgot, hdec⟩ := andThen_ok h
         obtain ⟨hb, hsent, hans⟩ := exchange_ok hgot
         by_cases hv : craVerify env.o sig (craChallengeOf ks env (details.optString "authid") nonce)
-            (craKey ks env.o (details.optString "authid")) = true
+            (craKey rk ks env.o (details.optString "authid")) = true
         · simp only [hv, if_true] at hdec
           obtain ⟨sb, hsb, heq⟩ := craVerify_iff.mp hv
           exact ⟨hdec, Or.inr ⟨by simpa using hal, _, hsent, hb, nonce, sig, sb, hn, rfl, hans, hsb, heq⟩⟩
@@ -178,27 +178,28 @@ theorem csDecide_ok {checks : Bool} {o : Oracle} {pubkey challenge : Bytes} {w w
     exact ⟨h.symm, csVerify_true_iff.mp hv⟩
 
 /-- cryptosign (challenge path) -/
-def CsAccepts (checks : Bool) (ks : KeyStore) (t : Nat) (env : Env) (details : Dict)
+def CsAccepts (checks rk : Bool) (ks : KeyStore) (t : Nat) (env : Env) (details : Dict)
     (script rest : List Arrival) (challenge : Bytes) : Prop :=
   env.challengeBlocked = false ∧ env.o.csChallenge = some challenge ∧
   ∃ sig key, AnswersInTime (crTimeout t) script sig rest ∧
     ks.authKey (details.optString "authid") "cryptosign" = .ok key ∧
+    (rk && (key.getD []).isEmpty) = false ∧
     CsVerified checks env.o sig (key.getD []) challenge
 
-theorem csAuth_ok {checks : Bool} {ks : KeyStore} {t : Nat} {env : Env} {details : Dict}
+theorem csAuth_ok {checks rk : Bool} {ks : KeyStore} {t : Nat} {env : Env} {details : Dict}
     {script : List Arrival} {w : Dict}
-    (h : (csAuth checks ks t env details script).res = .ok w) :
+    (h : (csAuth checks rk ks t env details script).res = .ok w) :
     details.optString "authid" ≠ "" ∧
     ∃ authrole, ks.authRole (details.optString "authid") = .ok authrole ∧
     ((alreadyAuth ks.bypass (details.optString "authid") details = true ∧
-        (csAuth checks ks t env details script).sent = [] ∧
+        (csAuth checks rk ks t env details script).sent = [] ∧
         finishWelcome ks.bypass (details.optString "authid")
           (stdWelcome (details.optString "authid") authrole "cryptosign" ks.provider) details = .ok w) ∨
      (alreadyAuth ks.bypass (details.optString "authid") details = false ∧
         w = stdWelcome (details.optString "authid") authrole "cryptosign" ks.provider ∧
-        ∃ challenge, (csAuth checks ks t env details script).sent =
+        ∃ challenge, (csAuth checks rk ks t env details script).sent =
             [.challenge "cryptosign" [("challenge", .str (hexEncode challenge))]] ∧
-          CsAccepts checks ks t env details script (csAuth checks ks t env details script).rest challenge)) := by
+          CsAccepts checks rk ks t env details script (csAuth checks rk ks t env details script).rest challenge)) := by
   by_cases ha : details.optString "authid" = ""
   · simp [csAuth, ha] at h
   · refine ⟨ha, ?_⟩
@@ -214,6 +215,10 @@ theorem csAuth_ok {checks : Bool} {ks : KeyStore} {t : Nat} {env : Env} {details
         | error e => simp [hk] at h
         | ok key =>
           simp only [hk] at h ⊢
+          cases hrk : (rk && (key.getD []).isEmpty) with
+          | true => simp [hrk] at h
+          | false =>
+          simp only [hrk, Bool.false_eq_true, if_false] at h ⊢
           cases hc : env.o.csChallenge with
           | none => simp [hc] at h
           | some challenge =>
@@ -221,7 +226,7 @@ theorem csAuth_ok {checks : Bool} {ks : KeyStore} {t : Nat} {env : Env} {details
             obtain ⟨sig, hgot, hdec⟩ := andThen_ok h
             obtain ⟨hb, hsent, hans⟩ := exchange_ok hgot
             obtain ⟨hw, hv⟩ := csDecide_ok hdec
-            exact Or.inr ⟨by simpa using hal, hw, challenge, hsent, hb, hc, sig, key, hans, hk, hv⟩
+            exact Or.inr ⟨by simpa using hal, hw, challenge, hsent, hb, hc, sig, key, hans, hk, hrk, hv⟩
 
 /-! ### anonymous -/
 
